@@ -1,6 +1,7 @@
 import Dia.History
 import Dia.Dump
 import Dia.Top
+import Dia.SpecTop
 /-! # C18 - AVP lookup and typed accessors agree with the message content. Property theorems only. -/
 namespace Dia
 open Spec
@@ -67,6 +68,14 @@ theorem C18_decoded_order (cfg : Cfg) (dict : Lookup) (bs : Bytes) (m : Msg)
     have hl : (m.version :: be24 m.length ++ m.flags :: be24 m.cmd ++ be32 m.app ++ be32 m.hbh.toNat ++
         be32 m.e2e.toNat).length = hb.length := by simp [e2]
     exact (List.append_inj e4 hl).2.symm
+
+/-- the same against the independent reader: if the frame parses as `s`, the AVP list accessor of the decoded message
+lists exactly `s`'s AVPs, in `s`'s (= wire) order -/
+theorem C18_decoded_is_parsed (cfg : Cfg) (dict : Lookup) (bs : Bytes) (m : Msg) (s : SMsg)
+    (h : decMsg cfg dict bs = .ok m) (hlen : bs.length = m.length) (hnl : NoLieList m.avps)
+    (hp : Parses dict bs s) : absList m.avps = s.avps := by
+  have := parses_unique dict bs m.abs s (decMsg_parses cfg dict bs m h hlen hnl) hp
+  rw [← this]; rfl
 
 /-! non-vacuity: a message with a repeated code -/
 example : (Msg.new 272 4 0 0 0 |>.addAvp 7 none 0 (.unsigned32 1) |>.addAvp 9 none 0 (.utf8 []) |>.addAvp 7 (some 3) 0
